@@ -51,6 +51,10 @@ pub struct Report {
     pub states: u64,
     pub transitions: u64,
     pub sample: Option<Value>,
+    /// families whose case is a block of many inputs: number of inputs evaluated in this case
+    pub sub_evaluations: u64,
+    /// … and the (hashed) distinct-non-trivial keys of those inputs
+    pub more_keys: Vec<u64>,
 }
 
 impl Report {
@@ -148,7 +152,10 @@ pub fn worker_main(fam: &dyn Family, tier: Tier, w: usize, k: usize, from: usize
         let _ = writeln!(out, "B {}", idx);
         let _ = out.flush();
         let rep = fam.run(&case, &mut ctx);
-        agg.evaluations += 1;
+        agg.evaluations += if rep.sub_evaluations > 0 { rep.sub_evaluations } else { 1 };
+        for k in &rep.more_keys {
+            agg.nontrivial.insert(format!("{:016x}", k));
+        }
         for t in rep.tags {
             *agg.tags.entry(t).or_insert(0) += 1;
         }
